@@ -1,7 +1,7 @@
 (* EGraph/InvMachine.v — machine `egc`: for one history, evaluate the executable premise of
    C13_eq_is_an_equivalence_on_reachable_states (both handles of every union cover their classes) and the
    executable part of the invariant eg_inv2 on the final state. *)
-From SE Require Import EGraph.ModelMachine EGraph.UnionFindFacts EGraph.InvariantFacts EGraph.UnionInvariantFacts EGraph.CongruenceFacts EGraph.StoredLive EGraph.RepFacts.
+From SE Require Import EGraph.ModelMachine EGraph.UnionFindFacts EGraph.InvariantFacts EGraph.UnionInvariantFacts EGraph.CongruenceFacts EGraph.StoredLive EGraph.RepFacts EGraph.OpsPreFacts.
 
 Definition run_egc (args : list sexp) : sexp :=
   match args with
@@ -16,7 +16,7 @@ Definition run_egc (args : list sexp) : sexp :=
                    Lst [Sym "handles-cover"; sbool (forallb (coversb s) hs)];
                    Lst [Sym "self-symmetries"; sbool (ss_okb s)];
                    Lst [Sym "stored-live"; sbool (stored_liveb s)];
-                   Lst [Sym "terms-wf"; sbool (forallb twfb rts)];
+                   Lst [Sym "terms-static"; sbool (forallb term_staticb rts)];
                    Lst [Sym "handles-rep"; sbool (handles_repb rts ops hs s)]]
           end
       | _, _ => Sym "bad-case"
